@@ -8,6 +8,7 @@ import json
 from setigen.voltage import antenna as v_antenna
 from setigen.voltage import backend as v_backend
 from setigen.voltage import polyphase_filterbank as v_pfb
+from setigen.voltage import quantization as v_q
 
 
 class Recorder(object):
@@ -40,6 +41,7 @@ class Recorder(object):
                     rec.depth -= 1
                     if outer == 0 and rec.cur is not None:
                         rec.cur[0]["blocks"] = int(getattr(be, "num_blocks", -1) or 0)
+                        rec.cur[0]["nq"] = len(rec.cur[0].pop("_qids", {}))
                         rec.cur.append({"e": "End"})
                         rec.traces.append(rec.cur)
                         rec.cur = None
@@ -96,6 +98,33 @@ class Recorder(object):
                         rec.cur.append({"e": "Chan" if cache else "ChanNoCache", "inlen": int(len(x)), "cache": clen,
                                         "out": -1 if out is None else int(out.shape[0])})
             return channelize
+        def wrap_quantize(orig):
+            @functools.wraps(orig)
+            def quantize(q, voltages, custom_std=None):
+                before = q.stats_cache
+                try:
+                    return orig(q, voltages, custom_std=custom_std)
+                finally:
+                    if rec.cur is not None:
+                        ids = rec.cur[0].setdefault("_qids", {})
+                        qid = ids.setdefault(id(q), len(ids) + 1)
+                        rec.cur.append({"e": "Quant", "q": qid, "period": int(q.stats_calc_period), "refreshed": q.stats_cache is not before,
+                                        "idx": int(q.stats_calc_indices), "custom": custom_std is not None})
+            return quantize
+
+        def wrap_qreset(orig):
+            @functools.wraps(orig)
+            def _reset_cache(q):
+                try:
+                    return orig(q)
+                finally:
+                    if rec.cur is not None:
+                        ids = rec.cur[0].setdefault("_qids", {})
+                        qid = ids.setdefault(id(q), len(ids) + 1)
+                        rec.cur.append({"e": "QReset", "q": qid})
+            return _reset_cache
+        self._patch(v_q.RealQuantizer, "quantize", wrap_quantize)
+        self._patch(v_q.RealQuantizer, "_reset_cache", wrap_qreset)
         self._patch(v_backend.RawVoltageBackend, "record", wrap_record)
         self._patch(v_backend.RawVoltageBackend, "_make_header", wrap_header)
         self._patch(v_backend.RawVoltageBackend, "collect_data_block", wrap_block)
